@@ -24,6 +24,18 @@ def rewrite(kind, repo):
         if not out:
             raise RuntimeError('syncseam: no file of internal/outputstream imports "sync"')
         return out
+    if kind == "diskseam":
+        # leveldb.OpenFile / leveldb.RecoverFile of internal/raftstore -> verifdisk (DESIGN §3.3 (2))
+        rel = os.path.join("internal", "raftstore", "leveldb.go")
+        src = open(os.path.join(repo, rel)).read()
+        new, n1 = re.subn(r'\bleveldb\.OpenFile\(', 'verifdisk.OpenFile(', src)
+        new, n2 = re.subn(r'\bleveldb\.RecoverFile\(', 'verifdisk.RecoverFile(', new)
+        if n1 == 0:
+            raise RuntimeError("diskseam: internal/raftstore/leveldb.go no longer calls leveldb.OpenFile")
+        new, n3 = re.subn(r'(?m)^import \(\n', 'import (\n\t"github.com/robustirc/robustirc/internal/verifsim/verifdisk"\n', new, count=1)
+        if n3 == 0:
+            raise RuntimeError("diskseam: import block not found")
+        return {rel: new}
     raise RuntimeError("unknown rewrite " + kind)
 
 
@@ -78,6 +90,15 @@ ENGINES = {
         "crash_classifier": "crash_fsm",
         "env": {"VERIF_REPEAT": "8"},
         "kind": "E1 fsmsim: real FSM/ircserver/outputstream/raftstore/FileSnapshotStore per node inside a synctest bubble; consensus stubbed by a single-copy reference log with arbitrary lag",
+    },
+    "c09": {
+        "pkg": "./internal/raftstore",
+        "virtual": ["core", "verifdisk"],
+        "add": {"internal/raftstore/zz_verif_c09_test.go": "sim/c09/c09_test.go"},
+        "rewrite": ["diskseam"],
+        "gomaxprocs": 2,
+        "chunk": {"quick": 100, "thorough": 1000},
+        "kind": "C09 harness: real LevelDBStore + goleveldb on real files through a counting/forking storage.Storage wrapper; plain-map model",
     },
     "e3/c08": {
         "pkg": "./internal/outputstream",
@@ -150,6 +171,23 @@ CHECKS = {
 }
 
 CHECKS.update({
+    "C09": {
+        "engine": "c09",
+        "runs": {"quick": 3000, "thorough": 300000},
+        "level": "exploration",
+        "rule": ("scenario = 5-40 operations drawn from StoreLog(s)/StoreLogProto (append, overwrite, gap, very large indexes; all entry types; replicated-message payloads in both encodings with and without explicit id; extensions; append times), "
+                 "DeleteRange (prefix/suffix/middle/all/empty/beyond), GetLog, First/LastIndex, bulk iteration, Set/Get/SetUint64/GetUint64 (incl. empty and binary keys), close+reopen (same or flipped encoding), "
+                 "and for any mutating step a kill at its k-th storage operation (optionally torn write) followed by reopening the forked directory; "
+                 "non-trivial = >=2 stores, >=1 reopen or kill and >=1 non-empty range deletion; distinct = event-trace digest"),
+        "probes": ["stores", "stores_big_index", "delranges_nonempty", "reopens", "encoding_flips", "kills", "kills_inside_operation", "torn_writes", "inflight_op_absent", "inflight_op_complete", "converted_payloads_compared", "stable_sets"],
+        "components": {"real": ["internal/raftstore", "internal/raftlog", "internal/robust", "goleveldb (journal, manifest, recovery) on real files"],
+                       "stubbed": ["leveldb.OpenFile -> verifdisk.OpenFile: same database on a storage.Storage wrapper that counts file operations and forks the directory at operation k (process-kill model: completed file operations survive, in-flight write may be torn)"]},
+        "claim": ("After every mutating operation, after every reopen (same or other encoding) and after a kill at storage-operation granularity, everything the LogStore/StableStore API can be asked (first/last index, every stored and several missing indexes, stable keys, bulk ranges) is compared with a plain map; "
+                  "after a kill the in-flight operation must be wholly absent or wholly present. JSON->protobuf conversion must preserve the decoded replicated message."),
+        "note": "process-kill model only (no power loss: the store writes with Sync:false by design); goleveldb is trusted as the database; large indexes include the range that sorts around the stable-store key prefix.",
+        "technique": "deterministic simulation: seeded operation/fault sequences with kill points at storage-operation granularity, reference-model oracle",
+        "assumptions": ["LogCommand payloads are valid replicated messages (ConvertToProto decodes them by design)"],
+    },
     "C08": {
         "engine": "e3/c08",
         "runs": {"quick": 20000, "thorough": 2000000},
